@@ -151,6 +151,25 @@ func c03Large(rng *rand.Rand, id int, ep, temp string) []string {
 	return out
 }
 
+// the main file itself has a torn tail (a crash image) when the compaction runs
+func c03TornMain(rng *rand.Rand, id int, ep string) []string {
+	h := &c03Hist{rng: rng}
+	out := []string{fmt.Sprintf("case %d ep=%s temp=none tornmain", id, ep)}
+	chron := c03ChronLine(rng, false)
+	out = append(out, chron, "live 1000000")
+	for b := 0; b < 4; b++ {
+		out = append(out, "w "+h.put(1+rng.Intn(3))+","+h.put(1+rng.Intn(3)), "sync")
+	}
+	out = append(out, "close", fmt.Sprintf("cut %d", c02Pick(rng, 1, 5, 17, 60, 300)), chron, "load")
+	if ep == "cli" {
+		out = append(out, "cli 0.01")
+	} else {
+		out = append(out, "force")
+	}
+	out = append(out, chron, "load", "w "+h.put(9), "close", chron, "load")
+	return out
+}
+
 func c03Gen(rng *rand.Rand, tier string, w *bufio.Writer) {
 	temps := []string{"none", "junk", "stale", "cut", "hdronly", "short"}
 	id := 0
@@ -166,6 +185,11 @@ func c03Gen(rng *rand.Rand, tier string, w *bufio.Writer) {
 	emit(c03Large(rand.New(rand.NewSource(13)), id, "write", "stale"))
 	emit(c03Large(rand.New(rand.NewSource(14)), id, "close", "cut"))
 	emit(c03Large(rand.New(rand.NewSource(15)), id, "load", "stale"))
+	emit(c03TornMain(rand.New(rand.NewSource(16)), id, "cli"))
+	emit(c03TornMain(rand.New(rand.NewSource(17)), id, "force"))
+	for i := 0; i < 4; i++ {
+		emit(c03TornMain(rng, id, []string{"cli", "force"}[rng.Intn(2)]))
+	}
 	nSmall, nLarge := 14, 4
 	if tier == "thorough" {
 		nSmall, nLarge = 120, 30
